@@ -102,11 +102,75 @@ ENTRY_POINTS = {
 }
 
 
+_UNJUSTIFIED_ASSERTS: set[tuple[str, int]] = set()
+
+
+def _classify_parser_asserts(prog: Program, res: Result) -> None:
+    """C02.R10. `assert isinstance(tok, <…Token>)` in a Tag.parse cannot fail on user input only if something established the kind:
+    the parser's dispatcher (the assert is about the first token the method reads), or a `stream.expect_tag(…)` / `stream.expect(…)`
+    directly before the `tok = stream.current()` it checks. An assert left behind after its expect_tag was deleted fails on the
+    end-of-input token of an unclosed block: AssertionError, not LiquidSyntaxError."""
+    res.rule("C02.R10", "every `assert isinstance(tok, …Token)` in a tag's parse method is backed by code: tok is the first token the method reads (the parser dispatched on its kind) or it is read with stream.current() immediately after stream.expect_tag(…)/expect(…), with no other stream movement in between")
+    _UNJUSTIFIED_ASSERTS.clear()
+    n = 0
+    moving = ("next", "parse_block", "expect", "expect_tag", "expect_one_of", "expect_eos", "eat", "eat_one_of", "parse", "next_token", "skip")
+    for fi in sorted(prog.all_functions(), key=lambda f: (f.file, f.node.lineno)):
+        if fi.name != "parse" or fi.cls is None:
+            continue
+
+        def blocks(node: ast.AST):  # noqa: ANN202
+            for fld in ("body", "orelse", "finalbody"):
+                b = getattr(node, fld, None)
+                if isinstance(b, list) and b and isinstance(b[0], ast.stmt):
+                    yield b
+                    for st in b:
+                        yield from blocks(st)
+            for h in getattr(node, "handlers", []) or []:
+                yield from blocks(h)
+
+        first_line = min((c.lineno for c in ast.walk(fi.node) if isinstance(c, ast.Call) and isinstance(c.func, ast.Attribute) and c.func.attr in moving + ("current", "peek") and isinstance(c.func.value, ast.Name) and c.func.value.id in ("stream", "tokens")), default=10**9)
+        for body in blocks(fi.node):
+            for i, st in enumerate(body):
+                if not (isinstance(st, ast.Assert) and isinstance(st.test, ast.Call) and norm(st.test.func) == "isinstance" and len(st.test.args) == 2 and isinstance(st.test.args[0], ast.Name) and "Token" in norm(st.test.args[1])):
+                    continue
+                n += 1
+                var = st.test.args[0].id
+                site = f"{fi.file}:{st.lineno} {fi.qualname}"
+                what = f"{fi.qualname}: `{norm(st, 70)}` cannot fail on user input"
+                # the binding this assert checks: the closest preceding statement of the same block that assigns var
+                j = next((k for k in range(i - 1, -1, -1) if isinstance(body[k], ast.Assign) and any(isinstance(t, ast.Name) and t.id == var for t in body[k].targets)), None)
+                if j is None:
+                    res.ok("C02.R10", site, what, f"`{var}` is a parameter / bound outside this block (first use of the dispatcher's token)")
+                    continue
+                src = body[j].value
+                is_read = isinstance(src, ast.Call) and isinstance(src.func, ast.Attribute) and src.func.attr in ("current", "next") and isinstance(src.func.value, ast.Name)
+                if is_read and body[j].lineno <= first_line:
+                    res.ok("C02.R10", site, what, "the first token the method reads: the parser dispatched on its kind")
+                    continue
+                prev = body[j - 1] if j > 0 else None
+                expected = prev is not None and isinstance(prev, ast.Expr) and isinstance(prev.value, ast.Call) and isinstance(prev.value.func, ast.Attribute) and prev.value.func.attr in ("expect_tag", "expect") and is_read and src.func.attr == "current"
+                # … or the block is entered only when the stream stands on a tag: `while stream.is_tag("elsif"):` with the read first in the body
+                owner = next((a for a in fi.module.ancestors(st) if isinstance(a, (ast.While, ast.If)) and body is a.body), None)
+                under_is_tag = owner is not None and any(isinstance(c, ast.Call) and isinstance(c.func, ast.Attribute) and c.func.attr in ("is_tag", "is_one_of") for c in ast.walk(owner.test)) and j == 0 and is_read
+                if expected:
+                    res.ok("C02.R10", site, what, f"read right after `{norm(prev, 50)}`")
+                elif under_is_tag:
+                    res.ok("C02.R10", site, what, f"first statement of a block entered under `{norm(owner.test, 50)}`")
+                elif is_read and src.func.attr == "next" and "Tag" not in norm(st.test.args[1]):
+                    res.ok("C02.R10", site, what, "kind of an expression token checked for the type checker only (TokenT union)")
+                else:
+                    _UNJUSTIFIED_ASSERTS.add((fi.file, st.lineno))
+                    res.fail("C02.R10", file=fi.file, line=st.lineno, qualname=fi.qualname, construct=f"{fi.qualname}: assert on `{var}` with nothing establishing its kind", message=f"{fi.qualname} asserts `{norm(st.test, 60)}` for a token read in the middle of the tag (`{norm(body[j], 50)}`) without a stream.expect_tag(…)/expect(…) directly before the read: on an unclosed or malformed block the token is the end-of-input token and the assert raises AssertionError, which is not a LiquidError", what=what)
+    res.floor("C02.R10", "token-kind asserts in parse methods", n, 25)
+
+
 def _is_parser_invariant_assert(e) -> bool:  # noqa: ANN001
-    """`assert isinstance(x, <…Token>)` / `assert x is not None` inside a Tag.parse: the dispatcher tested the token kind."""
+    """`assert isinstance(x, <…Token>)` / `assert x is not None` inside a Tag.parse, justified structurally by C02.R10."""
     if e.exc is not AssertionError or not e.qualname.endswith(".parse"):
         return False
     w = e.what
+    if (e.file, e.line) in _UNJUSTIFIED_ASSERTS:
+        return False
     return (w.startswith("assert isinstance(") and "Token)" in w) or w.endswith("is not None")
 
 
@@ -255,6 +319,47 @@ def _bare_names(e: ast.AST) -> list[str]:
         out += _bare_names(ch)
     return out
 
+
+_NONE_POSITIVE = """
+def f(items, key=None):
+    first = None
+    for it in items:
+        if it:
+            first = it
+            break
+    x = first.name
+    if key:
+        return key.upper()
+    return key.lower()
+"""
+
+
+def _none_flow_rule(prog: Program, res: Result) -> None:
+    """C02.R11: AttributeError / TypeError on None is not a LiquidError. With no type checker in the sandbox, sa/nullflow.py follows
+    None through locals: the constant, conditional expressions, parameters declared Optional or defaulting to None, and calls of
+    functions declared `-> X | None`; tests refine. A dereference of a may-be-None local, or a may-be-None value returned from a
+    function whose annotation does not admit None (every caller trusts it), is reported."""
+    import types
+
+    from sa.nullflow import NullFlow
+
+    res.rule("C02.R11", "no local that can be None is dereferenced (`x.attr`, `x[…]`, `x(…)`, `await x`, iteration), and no function whose return annotation excludes None returns a value that can be None: the guards that turn `None` away (`if not base: raise …`) are load-bearing for every caller that trusts the annotation (may-be-None dataflow over every function, sa/nullflow.py)")
+    nf = NullFlow(prog)
+    pos_fn = ast.parse(_NONE_POSITIVE).body[0]
+    fake = types.SimpleNamespace(node=pos_fn, cls=None, qualname="f", file="<positive>", module=prog.mod("liquid2/context.py"), parent_fn=None)
+    if sorted(f.name for f in nf.analyse(fake)) != ["first", "key"]:  # type: ignore[arg-type]
+        raise AnalysisError("C02.R11: the positive example no longer yields its two findings")
+    n = 0
+    for fi in sorted(prog.all_functions(), key=lambda f: (f.file, f.node.lineno)):
+        n += 1
+        for f in nf.analyse(fi):
+            if f.kind == "deref":
+                res.fail("C02.R11", file=fi.file, line=getattr(f.node, "lineno", fi.node.lineno), qualname=fi.qualname, construct=f"{fi.qualname}: `{f.name}` can be None where it is dereferenced", message=f"{fi.qualname} dereferences `{f.name}`, which can be None here ({f.why}): AttributeError/TypeError, not a LiquidError, escapes", what=f"{fi.qualname}: no dereference of a possibly-None local")
+            else:
+                res.fail("C02.R11", file=fi.file, line=getattr(f.node, "lineno", fi.node.lineno), qualname=fi.qualname, construct=f"{fi.qualname}: returns a possibly-None value although declared `-> {ast.unparse(fi.node.returns) if fi.node.returns else '?'}`", message=f"{fi.qualname} can return None (`{f.name}`: {f.why}) although its annotation excludes it: callers use the result unchecked (`<result>.render_with_context(…)`), so AttributeError on None escapes where a LiquidError was raised", what=f"{fi.qualname}: the declared return type holds")
+    res.ok("C02.R11", "liquid2/**", f"{n} functions: no possibly-None local is dereferenced or returned against the annotation", "forward may-be-None analysis with test refinement; positive example matched twice")
+    res.floor("C02.R11", "functions analysed for None flow", n, 900)
+
 def run(prog: Program, res: Result) -> None:  # noqa: PLR0912, PLR0915
     res.explanation = (
         "escapes(f) = catalogue sites and explicit raises in f not caught by an enclosing handler, plus the escapes of every "
@@ -295,6 +400,7 @@ def run(prog: Program, res: Result) -> None:  # noqa: PLR0912, PLR0915
         raise AnalysisError(f"call resolution rate dropped to {E.n_resolved / E.n_calls:.0%}")
 
     # ------------------------------------------------------------------ R1 entry points
+    _classify_parser_asserts(prog, res)
     res.rule("C02.R1", "no exception class outside LiquidError escapes a public parse / render / analysis / extraction entry point")
     res.rule("C02.R2", "str(err), err.detailed_message() and err.context() of every LiquidError reach no partial operation that can raise")
     res.rule("C02.R2b", "every LiquidError (subclass) constructed inside liquid2 is given a str, None or an exception object as its message, so formatting the message cannot raise")
@@ -391,6 +497,7 @@ def run(prog: Program, res: Result) -> None:  # noqa: PLR0912, PLR0915
     check_definite_assignment(prog, res, "C02.R7")
     _range_copy_rule(prog, res)
     _power_guard_rule(prog, res)
+    _none_flow_rule(prog, res)
     # ------------------------------------------------------------------ R3 boundary converters
     res.rule("C02.R3", "Filter.evaluate[_async] wraps the dynamic filter call in a handler converting (TypeError, ValueError, ArithmeticError, LookupError, AttributeError, OSError) to LiquidTypeError; render_with_context converts stray LiquidInterrupts")
     flt = prog.mod("liquid2/builtin/expressions.py").classes.get("Filter")
